@@ -24,6 +24,11 @@ CHECKS = {
    technique="exhaustive configuration enumeration of the real Entropy()/exact count against independent inclusion-exclusion and brute-force string enumeration",
    text="Entropy() involves no randomness, so the whole bounded recipe space is enumerated: every allow/exclude subset and every multiset of required subsets over a 4-5 character universe (all overlap patterns), all 2^15 class-flag triples, lengths to 5000, 5-8 required sets. The exact integer behind the entropy must equal an independently computed count; the float must be its log2 within 1 ulp32.",
    note="Universe and lengths are bounded as stated in the evidence rule; recipes whose required set is emptied by exclusion are outside the property's premise and skipped. Trusted: math/big, math.Log2, the verif-tagged VerifCount export mirroring Entropy()'s branch."),
+ "C13": dict(
+   engine="E1-cells", category="model_checking", ref="§3 C13",
+   technique="exhaustive enumeration of recipe configurations and of a scripted all-attempts-fail random tape on the real Generate/SuccessProbability, against an exact rational model",
+   text="All recipes of the overlap universe and all 2^15 flag triples are run through the real SuccessProbability and Generate (panics recovered) and compared with the exact rational success probability and the refusal rule derived from it; degenerate character and wordlist values are enumerated; a tape policy on which every candidate fails checks the attempt budget under five (MaxTrials, MaxFailRate) settings.",
+   note="Lengths bounded (1-8, 20 for flag triples); a rounding band around the refusal threshold is classified 'either'; recipes with a required set emptied by exclusion are 'either' (see DESIGN §4)."),
 }
 
 PENDING_REASON = "check not built yet in this session (planned in DESIGN.md §3; will be claimed when its checker exists)"
